@@ -21,7 +21,8 @@ RULE_TEXT = (
     "Class shared-endpoint: two subscriptions that name one endpoint and differ in the counter. non-trivial = at least one "
     "notification was judged; distinct = interleaving signature"
 )
-PROBES = ["matched_initial", "matched_explicit", "cyclic_datagrams", "refused", "notify_once_without_clients", "second_subscription_for_one_endpoint"]
+SELFTEST_N = 20
+PROBES = ["session_wraps", "matched_initial", "matched_explicit", "cyclic_datagrams", "refused", "notify_once_without_clients", "second_subscription_for_one_endpoint"]
 RUNS = {"quick": 16000, "thorough": 1500000}
 HASHSEEDS = [1, 2]
 SVC = {
@@ -40,7 +41,26 @@ def ep(p, port=4000, v6=False):
     return ["ep", 6, "fd00::%x" % (0x11 + p), 17, port] if v6 else ["ep", 4, f"10.0.0.{11 + p}", 17, port]
 
 
+WRAP_EVERY = 2001  # odd: the long runs spread over the workers
+
+
+def gen_wrap(seed, idx):
+    """long enough to wrap a destination's session id: 1 ms cyclic rounds of two events (a datagram straddles the
+    wrap) plus explicit rounds of one event (so that the parity changes), two subscribers joining at different moments"""
+    r = rng(seed, ID, "wrap", idx)
+    svc = dict(SVC, eventgroups=[{"id": 1, "interval": 0.001, "values": {"1": "00", "2": "aabb"}}])
+    cfg = {"service": svc, "timings": TIMINGS, "resolver": [0.0, r.choice([0.0, 0.0005])], "max_iterations": 5000000}
+    ops = [{"k": "call", "t": 0.0, "f": "start", "a": []}]
+    for p in range(2):
+        ops.append({"k": "sd", "t": round(0.01 + p * r.uniform(0.0, 2.0), 6), "p": p, "ch": "u", "e": [["sub", SVC["svc"], 1, 2, 1, INF_TTL, 0, [ep(p, 4000, p == 1)]]]})
+    for j in range(r.randint(0, 7)):
+        ops.append({"k": "call", "t": round(r.uniform(0.1, 30.0), 6), "f": "notify_once", "a": [1, [r.choice([1, 2])]]})
+    return {"engine": "svc", "property": ID, "class": "wrap", "seed": seed, "cfg": cfg, "ops": ops, "until": 36.0}
+
+
 def gen(seed, idx, tier):
+    if idx % WRAP_EVERY == WRAP_EVERY - 1:
+        return gen_wrap(seed, idx)
     r = rng(seed, ID, idx)
     shared = idx % 10 == 9
     L = r.choice([0.0, 0.01, 0.05])
@@ -104,7 +124,9 @@ def check(plan, res):
     foreign = bool(res.loop_exc or res.op_exc)
     for rec in res.swallowed:
         v.append(("ROUND-SET", {"msg": f"{rec[2]} swallowed in a notification task: {rec[3]}", "context": f"task-raised:{rec[2]}"}))
-    return {"violations": v, "nontrivial": o.nmsg > 0, "probes": o.probes, "states": o.states, "foreign": foreign}
+    probes = dict(o.probes)
+    probes["session_wraps"] = sum(1 for d, n in o.session.count.items() if n > 0xFFFF)
+    return {"violations": v[:20], "nontrivial": o.nmsg > 0, "probes": probes, "states": o.states, "foreign": foreign}
 
 
 def site(rule, plan, detail):
